@@ -99,7 +99,7 @@ pub fn artifact_to_replay(target: &str, file: &str) -> Option<String> {
     let tape: &[u8] = if target == "fz_struct" { &data[1..] } else { &data[..] };
     let v = serde_json::json!({"property": prop, "sub": sub, "kind": "tape", "tape_hex": crate::engine::hex(tape),
         "seed": 0, "message": format!("libFuzzer artefact of target {}", target)});
-    let dir = format!("{}/replays", crate::engine::VERIF_DIR);
+    let dir = format!("{}/replays", crate::engine::verif_dir());
     let _ = std::fs::create_dir_all(&dir);
     let name = std::path::Path::new(file).file_name()?.to_string_lossy().to_string();
     let path = format!("{}/{}_{}_fuzz_{}.json", dir, prop, sub, &name[name.len().saturating_sub(12)..]);
